@@ -257,3 +257,55 @@ def name_order_variants(defn):
         out.append(dsl.map_names(defn, m))
     out.append(dsl.map_names(defn, dict(zip(names, reversed(names)))))
     return out
+
+
+def _gate(branch):
+    """gate tree of a fork branch: a branch that consists of one fork block
+    only is that gate (bunched logic), anything else counts as a leaf"""
+    if len(branch) == 1 and branch[0][0] in ('and', 'or', 'xor'):
+        op = branch[0][0]
+        ch = []
+        for b in branch[0][1]:
+            g = _gate(b)
+            if g != 'leaf' and g[0] == op:
+                ch.extend(g[1])          # OR in OR, AND in AND: one gate
+            else:
+                ch.append(g)
+        return (op, ch)
+    return 'leaf'
+
+
+def bunched_exact_class(defn):
+    """bunched definitions on which C02's exactness is claimed (cf. C06's
+    class, widened by the AND-under-OR recovery the property names): every OR
+    gate joins plain events or AND gates of plain events, an OR gate with an
+    AND child does not sit under an AND gate, no AND gate has two OR children"""
+    def ok(g, under_and):
+        if g == 'leaf':
+            return True
+        op, ch = g
+        if op == 'or':
+            for c in ch:
+                if c != 'leaf' and not (c[0] == 'and' and
+                                        all(x == 'leaf' for x in c[1])):
+                    return False
+            if under_and and any(c != 'leaf' for c in ch):
+                return False
+        if op == 'and' and sum(1 for c in ch
+                               if c != 'leaf' and c[0] == 'or') >= 2:
+            return False
+        return all(ok(c, under_and or op == 'and') for c in ch)
+
+    def walk(seq):
+        for it in seq:
+            if it[0] in ('and', 'or', 'xor'):
+                if not ok(_gate((it,)), False):
+                    return False
+                for b in it[1]:
+                    if not walk(b):
+                        return False
+            elif it[0] == 'loop':
+                if not walk(it[1]):
+                    return False
+        return True
+    return walk(defn)
